@@ -51,14 +51,25 @@ def build_cover(rng, n_motifs, cyclic, kinds=("e", "e", "t", "k4", "c4", "d", "h
     return motifs
 
 
-def make_graph(motifs, isolated=0):
+EDGE_ORDER = ["motif"]      # how the labelled graph is assembled: motif by motif | from the sorted edge list | from a shuffled one
+
+
+def make_graph(motifs, isolated=0, order=None):
     import networkx as nx
     G = nx.Graph()
     G.add_nodes_from(range(900, 900 + isolated))        # vertices that belong to no motif (common in generated networks)
+    rows = []
     for mid, vs, es in motifs:
         label = "%d-%s-%s-%d" % (len(vs), str(list(vs)), str([tuple(e) for e in es]), mid)
         for a, b in es:
-            G.add_edge(a, b, CoverLabel=label)
+            rows.append((a, b, label))
+    order = order or EDGE_ORDER[0]
+    if order == "sorted":           # the same network read from an edge list: a vertex's neighbours alternate between motifs
+        rows.sort(key=lambda r: (min(r[0], r[1]), max(r[0], r[1])))
+    elif order == "shuffled":
+        _r.Random(len(rows)).shuffle(rows)
+    for a, b, label in rows:
+        G.add_edge(a, b, CoverLabel=label)
     return G
 
 
@@ -134,7 +145,7 @@ def run_once(case):
     """one theoretical(phi) call on a fresh object with every table access recorded"""
     import gcmpy
     motifs = [(m[0], list(m[1]), [tuple(e) for e in m[2]]) for m in case["motifs"]]
-    G = make_graph(motifs, case.get("isolated", 0))
+    G = make_graph(motifs, case.get("isolated", 0), case.get("edge_order"))
     phi = case["phi"]
     phi_kind = "zero" if phi == 0 else "one" if phi == 1 else "interior"
     events = []
@@ -221,6 +232,7 @@ def plain(motifs, phi, iterations, obj=None):
 
 
 def run_history(case):
+    EDGE_ORDER[0] = case.get("edge_order", EDGE_ORDER[0]); ISOLATED[0] = case.get("isolated", ISOLATED[0])
     tr = {"kind": "history", "case": case, "shared": [], "fresh": [], "raised": ""}
     try:
         motifs = [(m[0], list(m[1]), [tuple(e) for e in m[2]]) for m in case["motifs"]]
@@ -236,6 +248,7 @@ def run_history(case):
 
 
 def run_curve(case):
+    EDGE_ORDER[0] = case.get("edge_order", EDGE_ORDER[0]); ISOLATED[0] = case.get("isolated", ISOLATED[0])
     tr = {"kind": "curve", "case": case, "vals": [], "first_is_phi_zero": True, "raised": ""}
     try:
         motifs = [(m[0], list(m[1]), [tuple(e) for e in m[2]]) for m in case["motifs"]]
@@ -248,6 +261,7 @@ def run_curve(case):
 
 
 def run_converge(case):
+    EDGE_ORDER[0] = case.get("edge_order", EDGE_ORDER[0]); ISOLATED[0] = case.get("isolated", ISOLATED[0])
     tr = {"kind": "converge", "case": case, "a": 0, "b": 0, "raised": ""}
     try:
         motifs = [(m[0], list(m[1]), [tuple(e) for e in m[2]]) for m in case["motifs"]]
@@ -279,18 +293,20 @@ def run(chk):
     for ci, motifs in enumerate(covers):
         iso = [0, 0, 2, 1][ci % 4]
         ISOLATED[0] = iso
+        eo = ["motif", "sorted", "shuffled"][ci % 3]
+        EDGE_ORDER[0] = eo
         for phi in (0, 1, 0.5, 0.3, 0.85):
             for it in ((1, 2, 5) if phi in (0, 1) else (1, 3)):
-                traces.append(run_once({"motifs": motifs, "phi": phi, "iterations": it, "isolated": iso}))
-        traces.append(run_once({"motifs": motifs, "phi": 1, "iterations": 30, "isolated": iso}))
-        traces.append(run_history({"motifs": motifs, "phis": rng.sample([0, 0.1, 0.25, 0.5, 0.5, 0.75, 1, 1, 0.3, 0.9, 0.15], 6),
+                traces.append(run_once({"motifs": motifs, "phi": phi, "iterations": it, "isolated": iso, "edge_order": eo}))
+        traces.append(run_once({"motifs": motifs, "phi": 1, "iterations": 30, "isolated": iso, "edge_order": eo}))
+        traces.append(run_history({"edge_order": eo, "isolated": iso, "motifs": motifs, "phis": rng.sample([0, 0.1, 0.25, 0.5, 0.5, 0.75, 1, 1, 0.3, 0.9, 0.15], 6),
                                    "iterations": rng.choice([1, 5, 25])}))
         for it in ((1, 5, 25) if (thorough or ci % 4 == 0) else (rng.choice([1, 5]),)):
-            traces.append(run_curve({"isolated": iso, "motifs": motifs, "points": 40 if thorough else (20 if ci % 4 == 0 else 10), "iterations": it}))
+            traces.append(run_curve({"edge_order": eo, "isolated": iso, "motifs": motifs, "points": 40 if thorough else (20 if ci % 4 == 0 else 10), "iterations": it}))
         if thorough or ci % 3 == 0:
             # away from slow-convergence points: 120 against 121 sweeps must agree to 1e-5 (measured: exactly equal on 60 random covers)
             for phi in (0.15, 0.5):
-                traces.append(run_converge({"motifs": motifs, "phi": phi, "iterations": 120}))
+                traces.append(run_converge({"edge_order": eo, "isolated": iso, "motifs": motifs, "phi": phi, "iterations": 120}))
     runs = [t for t in traces if t["kind"] == "run"]
     if not any(t["events_known"] for t in runs):
         chk.not_decided.append("bookkeeping of every update (which messages are multiplied): the message table is not observable (no _H_tau attribute)")
